@@ -19,6 +19,8 @@ META = {
 
 def run(ctx, res):
     prog = ctx.prog("K0")
+    import rejects, re
+    rejects.rule_encode_reject_inventory(prog, res, only=re.compile(r'_data::encode$'))
     msm.rule_guards(prog, res)
     msm.rule_siblings(prog, res)
     msm.rule_decode(prog, res)
